@@ -56,7 +56,7 @@ def evaluate(ctx, run):
 
 def run(ctx):
     proof_ok, proof = common.proof_status(ctx, "C11")
-    n = 4000 if ctx.quick else 60000
+    n = 4000 if ctx.quick else 400000
     s = ctx.seed
     # mode bits: 1 = row-high only + twice, 2 = no turned, 4 = magnitude, 8 = sparse
     plan = [(1, n // 2, s + 50), (1 | 4, n // 4, s + 51), (1 | 8, n // 8, s + 52), (1 | 2, n // 8, s + 53)]
